@@ -1,0 +1,100 @@
+//! Verification-only I/O interposition (compiled only with `--cfg nervusdb_verif`).
+//!
+//! Every write, set_len, sync and rename that the WAL and the pager issue is
+//! reported here *before* it is performed.  A controller (the verification
+//! harness) can record the events, including the written bytes, so that the
+//! on-disk image after any prefix of the I/O steps can be materialised, and can
+//! ask for the N-th step to fail with an `io::Error` instead of being performed.
+//! With no controller installed the hook does nothing.
+
+use std::io;
+use std::path::Path;
+use std::sync::Mutex;
+
+#[derive(Clone, Copy, Debug, PartialEq, Eq)]
+pub enum IoKind {
+    /// `data` written at `offset`
+    Write,
+    /// file length set to `offset`
+    SetLen,
+    /// fsync / fdatasync of the file
+    Sync,
+    /// `path` renamed to `path2` (atomic replace)
+    Rename,
+    /// file created empty (create_new)
+    Create,
+    /// file removed
+    Remove,
+}
+
+#[derive(Clone, Debug)]
+pub struct IoEvent {
+    pub seq: u64,
+    pub kind: IoKind,
+    pub path: String,
+    pub path2: String,
+    pub offset: u64,
+    pub data: Vec<u8>,
+    /// the step was made to fail (it was not performed)
+    pub failed: bool,
+}
+
+struct State {
+    active: bool,
+    events: Vec<IoEvent>,
+    fail_at: Option<u64>,
+    count: u64,
+}
+
+static STATE: Mutex<State> = Mutex::new(State {
+    active: false,
+    events: Vec::new(),
+    fail_at: None,
+    count: 0,
+});
+
+/// Start recording (clears earlier events).  `fail_at = Some(n)`: the step with
+/// sequence number `n` (counted from 0 at this call) returns an error.
+pub fn start(fail_at: Option<u64>) {
+    let mut s = STATE.lock().unwrap_or_else(|e| e.into_inner());
+    s.active = true;
+    s.events.clear();
+    s.fail_at = fail_at;
+    s.count = 0;
+}
+
+/// Stop recording and return the events seen since `start`.
+pub fn stop() -> Vec<IoEvent> {
+    let mut s = STATE.lock().unwrap_or_else(|e| e.into_inner());
+    s.active = false;
+    s.fail_at = None;
+    std::mem::take(&mut s.events)
+}
+
+/// Number of steps seen since `start`.
+pub fn count() -> u64 {
+    STATE.lock().unwrap_or_else(|e| e.into_inner()).count
+}
+
+pub fn hook(kind: IoKind, path: &Path, path2: Option<&Path>, offset: u64, data: &[u8]) -> io::Result<()> {
+    let mut s = STATE.lock().unwrap_or_else(|e| e.into_inner());
+    if !s.active {
+        return Ok(());
+    }
+    let seq = s.count;
+    s.count += 1;
+    let failed = s.fail_at == Some(seq);
+    s.events.push(IoEvent {
+        seq,
+        kind,
+        path: path.to_string_lossy().into_owned(),
+        path2: path2.map(|p| p.to_string_lossy().into_owned()).unwrap_or_default(),
+        offset,
+        data: data.to_vec(),
+        failed,
+    });
+    if failed {
+        return Err(io::Error::other("verif: injected I/O fault"));
+    }
+    Ok(())
+}
